@@ -83,6 +83,12 @@ Definition run (i : sx) : sx :=
       do script <- as_list_of as_sockans script; do sels <- as_list_of as_selans sels;
       run_client_send_case sendmsg_drops_empty_views hs iov chunks T ri lk script sels
   | L [A 9; _; _; _; _; _; _; _; L [labels; A kind]] => run_lock_history labels kind
+  | L [A 12; _; _; _; _; _; _; _; L [a; b; c; A steps; _]] =>
+      (* async TLS, sender B cancelled while queued on the transport send lock (A holds it), then C: whatever the SSL object
+         encrypted must reach the wrapped transport, in order (B's records were produced iff B ever ran: steps > 0; they are
+         then flushed by the next holder of the lock).  output: outcome of C, digest of the peer's plaintext, stream valid *)
+      do a <- as_list_of as_chunk a; do b <- as_list_of as_chunk b; do c <- as_list_of as_chunk c;
+      L [A 0; digest_chunks (a ++ (if 0 <? steps then b else []) ++ c); A 1; A 0]
   | L [A 10; _; _; _; _; _; _; _; L sends] =>
       (* asyncio adapter, several sends one after the other (IO/AsyncAdapter.v over Conc/FlowControl.v):
          send = L [A 0; L [B data]; A k] send_all | L [A 1; L chunks; A k] send_all_from_iterable; the kernel takes k bytes
